@@ -13,7 +13,7 @@ from __future__ import annotations
 import ast
 
 from .lincomb import LinComb
-from .model import ClassInfo, FuncInfo, Program, call_name, is_self_attr, norm, strip_copy
+from .model import ClassInfo, FuncInfo, Program, call_name, is_self_attr, norm, strip_copy, inline_private_helpers
 from .poly import Rat, eval_expr, sign_atom, sqrt_of
 from .report import AnalysisError
 
@@ -471,6 +471,9 @@ class MatEval:
             g = self.k.resolve_super(f.cls, cn.split(".")[1])
             if g is None:
                 raise AnalysisError(f"{f.qualname}: {cn} not resolved")
+            import dataclasses
+
+            g = dataclasses.replace(g, node=inline_private_helpers(g, methods=True))
             sub = self.returns(g, {p: self.ev(f, a, env) for p, a in zip(g.params[1:], e.args)})
             if len(sub) != 1:
                 # several returns: must agree under the current assumptions
